@@ -906,6 +906,8 @@ def c15(res, tier, rng, wd):
     c2["FanOut"] = '"await"'
     vf.design_run(res, "C15", "ServerTask_MC-neg(awaiting fan-out, F14)", "ServerTask_MC.tla", "Spec", c2, [], ["ShutdownHonoured"],
                   expect_violation="ShutdownHonoured", workers=8)
+    vf.proof_run(res, "TrackerProof (TLAPS: table never above max, eviction only when full and only of the oldest, for all max_sessions)",
+                 "TrackerProof.tla")
     scs = e4.gen_c15(rng, 300 if thorough else 50, thorough)
     run_e4(res, "C15", scs, wd, "c15")
     # spec -> impl: behaviours of the design model chosen by TLC's simulation, replayed on the production server task
